@@ -460,6 +460,7 @@ Fixpoint split_netloc (s : text) : text * text :=
               else let '(a, b) := split_netloc r in (x :: a, b)
   end.
 
+Definition nonempty (s : text) : bool := match s with [] => false | _ => true end.
 Record split := mkSplit { u_scheme : text; u_netloc : text; u_path : text; u_query : text; u_fragment : text }.
 
 (* the part of urlsplit after scheme and netloc: fragment first, then query *)
@@ -468,13 +469,13 @@ Definition cut_ref (s : text) : text * text * text :=
   let '(s2, q) := cut 63 s1 in
   (s2, match q with Some x => x | None => [] end, match fr with Some x => x | None => [] end).
 
-Definition url_split (u : text) : res split :=
+Definition url_split_with (dflt : text) (u : text) : res split :=
   let u := drop_unsafe (lstrip_c0 u) in
   let '(sch, rest) :=
     match cut 58 u with
     | (a :: pre, Some r) =>
-        if is_alpha a && forallb scheme_char (a :: pre) then (map lower (a :: pre), r) else ([], u)
-    | _ => ([], u)
+        if is_alpha a && forallb scheme_char (a :: pre) then (map lower (a :: pre), r) else (dflt, u)
+    | _ => (dflt, u)
     end in
   let '(netloc, rest) :=
     match rest with
@@ -483,6 +484,120 @@ Definition url_split (u : text) : res split :=
     end in
   if xorb (memN 91 netloc) (memN 93 netloc) then Err EVal
   else let '(p, q, f) := cut_ref rest in Ok (mkSplit sch netloc p q f).
+Definition url_split (u : text) : res split := url_split_with [] u.
+
+(* ---- urllib.parse.urlparse / urlunparse / urljoin (str arguments) *)
+(* uses_relative / uses_netloc / uses_params: stdlib tables, emitted into Gen/Facts_C17.v from the running
+   interpreter's urllib.parse *)
+Record parsed := mkParsed { r_scheme : text; r_netloc : text; r_path : text; r_params : text;
+                            r_query : text; r_fragment : text }.
+
+(* _splitparams: the first ';' of the last path segment *)
+Definition split_params (p : text) : text * text :=
+  if memN 47 p then
+    let '(dir, last) := rcut 47 p in
+    match cut 59 last with
+    | (a, Some b) => (dir ++ [47] ++ a, b)
+    | (_, None) => (p, [])
+    end
+  else match cut 59 p with (a, Some b) => (a, b) | (_, None) => (p, []) end.
+
+Definition urlparse (dflt : text) (u : text) : res parsed :=
+  rlet s := url_split_with dflt u in
+  let '(p, pr) := if mem_text (u_scheme s) uses_params && memN 59 (u_path s)
+                  then split_params (u_path s) else (u_path s, []) in
+  Ok (mkParsed (u_scheme s) (u_netloc s) p pr (u_query s) (u_fragment s)).
+
+Definition urlunsplit (scheme netloc url query fragment : text) : text :=
+  let url :=
+    if nonempty netloc || (nonempty scheme && mem_text scheme uses_netloc && negb (startswith [47; 47] url))
+    then [47; 47] ++ netloc ++ match url with [] => [] | c :: _ => if c =? 47 then url else 47 :: url end
+    else url in
+  let url := match scheme with [] => url | _ => scheme ++ [58] ++ url end in
+  let url := match query with [] => url | _ => url ++ [63] ++ query end in
+  match fragment with [] => url | _ => url ++ [35] ++ fragment end.
+
+Definition urlunparse (r : parsed) : text :=
+  urlunsplit (r_scheme r) (r_netloc r)
+             (match r_params r with [] => r_path r | pr => r_path r ++ [59] ++ pr end)
+             (r_query r) (r_fragment r).
+
+Definition is_dots (s : text) : bool := text_eqb s [46] || text_eqb s [46; 46].
+(* the loop over segments; [acc] is resolved_path reversed *)
+Fixpoint resolve_dots (segs : list text) (acc : list text) : list text :=
+  match segs with
+  | [] => rev acc
+  | s :: r => if text_eqb s [46; 46] then resolve_dots r (tl acc)
+              else if text_eqb s [46] then resolve_dots r acc
+              else resolve_dots r (s :: acc)
+  end.
+(* segments[1:-1] = filter(None, segments[1:-1]) *)
+Definition filter_middle (segs : list text) : list text :=
+  match segs with
+  | first :: (_ :: _) as rest => first :: filter nonempty (removelast rest) ++ [last rest []]
+  | _ => segs
+  end.
+
+Definition urljoin (base url : text) : res text :=
+  match base, url with
+  | [], _ => Ok url
+  | _, [] => Ok base
+  | _, _ =>
+      rlet b := urlparse [] base in
+      rlet r := urlparse (r_scheme b) url in
+      if negb (text_eqb (r_scheme r) (r_scheme b)) || negb (mem_text (r_scheme r) uses_relative) then Ok url
+      else if mem_text (r_scheme r) uses_netloc && nonempty (r_netloc r) then Ok (urlunparse r)
+      else
+        let netloc := if mem_text (r_scheme r) uses_netloc then r_netloc b else r_netloc r in
+        if negb (nonempty (r_path r)) && negb (nonempty (r_params r)) then
+          Ok (urlunparse (mkParsed (r_scheme r) netloc (r_path b) (r_params b)
+                                   (match r_query r with [] => r_query b | q => q end) (r_fragment r)))
+        else
+          let base_parts := split_on 47 (r_path b) in
+          let base_parts := match last base_parts [] with [] => base_parts | _ => removelast base_parts end in
+          let segments := if startswith [47] (r_path r) then split_on 47 (r_path r)
+                          else filter_middle (base_parts ++ split_on 47 (r_path r)) in
+          let resolved := resolve_dots segments [] in
+          let resolved := if is_dots (last segments []) then resolved ++ [[]] else resolved in
+          let path := match join [47] resolved with [] => [47] | p => p end in
+          Ok (urlunparse (mkParsed (r_scheme r) netloc path (r_params r) (r_query r) (r_fragment r)))
+  end.
+
+(* StaticURLInfo.generate, a registration that is a URL *)
+Definition static_external (e : env) (url sub : text) (o : overrides) : res text :=
+  rlet aqf := parse_url_overrides e o in
+  let '(_, qs, fr) := aqf in
+  rlet p := urlparse [] url in
+  let url := match r_scheme p with
+             | [] => urlunparse (mkParsed (e_scheme e) (r_netloc p) (r_path p) (r_params p) (r_query p) (r_fragment p))
+             | _ => url
+             end in
+  rlet b := utf8_enc sub in
+  rlet r := (if static_external_uses_urljoin then urljoin url (quote static_external_safe b)
+             else Ok (url ++ quote static_external_safe b)) in
+  Ok (r ++ qs ++ fr).
+
+Inductive reg := RRoute (spec rname : text) | RExt (spec url : text).
+Fixpoint find_reg_x (regs : list reg) (path : text) : option (text * reg) :=
+  match regs with
+  | [] => None
+  | g :: r =>
+      match strip_prefix (match g with RRoute s _ | RExt s _ => s end) path with
+      | Some sub => Some (sub, g)
+      | None => find_reg_x r path
+      end
+  end.
+
+Definition static_url_x e routes (regs : list reg) (path : text) o kw : res text :=
+  match find_reg_x regs path with
+  | None => Err EVal
+  | Some (sub, RRoute _ rname) => route_url [] e routes rname [] o (dset static_subpath_key (KScalar (PStr sub)) kw)
+  | Some (sub, RExt _ url) => static_external e url sub o
+  end.
+
+Definition static_path_x e routes regs path o kw : res text :=
+  rlet a := path_app_url static_path_script_quoted e in
+  static_url_x e routes regs path (set_app_url o a) kw.
 
 (* urllib.parse.unquote (str): the UTF-8 bytes of the text, percent-decoded, decoded as UTF-8
    (strict here; the real one substitutes U+FFFD, which shows as None) *)
@@ -499,7 +614,6 @@ Definition parse_item (it : text) : option (text * text) :=
   | Some a, Some b => Some (a, b)
   | _, _ => None
   end.
-Definition nonempty (s : text) : bool := match s with [] => false | _ => true end.
 Definition parse_qsl (qs : text) : option (list (text * text)) :=
   map_opt parse_item (filter nonempty (split_on 38 qs)).
 
@@ -566,6 +680,26 @@ Definition spec_authority (e : env) (scheme host port : option text) : text :=
                end in
   eff_scheme ++ scheme_sep ++ eff_host ++ match shown with [] => [] | _ => port_sep ++ shown end.
 
+(* static assets: the sub-path below the registration is what has to come back.  A URL registration
+   goes through urljoin, which removes '.', '..' and empty segments by design: the round trip is
+   specified for sub-paths without such segments (the last one may be empty) *)
+Definition normal_sub (sub : text) : bool :=
+  let segs := split_on 47 sub in
+  forallb (fun s => nonempty s && negb (is_dots s)) (removelast segs) && negb (is_dots (last segs [])).
+Definition spec_ext_base (e : env) (url : text) : text :=
+  if startswith [47; 47] url then e_scheme e ++ [58] ++ url else url.
+Definition has_dot_segment (sub : text) : bool := existsb is_dots (split_on 47 sub).
+(* -> (segments that must come back | None, URL the result must start with | Some "": unspecified) *)
+Definition spec_static (e : env) (regs : list reg) (path : text) : option (list pval) * option text :=
+  match find_reg_x regs path with
+  | Some (sub, RRoute _ _) => (Some (map PStr (split_on 47 sub)), None)
+  | Some (sub, RExt _ url) =>
+      if has_dot_segment sub then (None, Some [])
+      else if normal_sub sub then (Some (map PStr (split_on 47 sub)), Some (spec_ext_base e url))
+      else (None, Some (spec_ext_base e url))
+  | None => (None, None)
+  end.
+
 (* RFC 3986 character classes *)
 Definition unreserved (c : N) : bool := is_alpha c || is_digit c || (c =? 45) || (c =? 46) || (c =? 95) || (c =? 126).
 Definition sub_delim (c : N) : bool := memN c [33; 36; 38; 39; 40; 41; 42; 43; 44; 59; 61].
@@ -631,7 +765,10 @@ Definition get_pattern (v : val) : option pattern :=
 Definition get_routes := get_list_of (fun v => match v with
                                                 | VL [VT n; p] => olet p := get_pattern p in Some (n, p)
                                                 | _ => None end).
-Definition get_regs := get_list_of (fun v => match v with VL [VT s; VT n] => Some (s, n) | _ => None end).
+Definition get_regs := get_list_of (fun v => match v with
+                                              | VL [VT s; VT n; VL []] => Some (RRoute s n)
+                                              | VL [VT s; VT n; VL [VT u]] => Some (RExt s u)
+                                              | _ => None end).
 
 Definition put_res (r : res text) : val :=
   match r with Ok t => VL [VI 0; VT t] | Err e => VL [VI 1; vN e] end.
@@ -660,7 +797,7 @@ Definition put_decoded (r : res text) : val :=
   end.
 
 (* the spec's expectations for one generation case *)
-Definition put_spec (e : env) (o : overrides) (els : option (list pval)) : val :=
+Definition put_spec (e : env) (o : overrides) (els : option (list pval)) (ext : option text) : val :=
   VL [ (* 0: scheme://authority the overrides ask for (when at least one is given and no _app_url) *)
        match o_app_url o, o_scheme o, o_host o, o_port o with
        | Some _, _, _, _ => VL []
@@ -681,10 +818,14 @@ Definition put_spec (e : env) (o : overrides) (els : option (list pval)) : val :
        (* 3: supplied anchor *)
        put_otext (spec_anchor (o_anchor o));
        (* 4: script name *)
-       VT (e_script e) ].
+       VT (e_script e);
+       (* 5: static asset registered under a URL: that URL (scheme filled in); [""]: registered under a URL but
+          the sub-path is outside the specified class *)
+       put_otext ext ].
 
-Definition answer (e : env) (o : overrides) (els : option (list pval)) (u p : res text) : val :=
-  VL [put_res u; put_res p; put_decoded u; put_spec e o els].
+Definition answer_x (e : env) (o : overrides) (els : option (list pval)) (ext : option text) (u p : res text) : val :=
+  VL [put_res u; put_res p; put_decoded u; put_spec e o els ext].
+Definition answer e o els u p := answer_x e o els None u p.
 
 Definition all_path_chars (s : text) : bool := forallb path_char s.
 
@@ -707,7 +848,8 @@ Definition run_C17 (v : val) : val :=
     | VL [VI 0%Z; VI 2%Z; e; rs; regs; VT path; o; kw] =>
         olet e := get_env e in olet rs := get_routes rs in olet regs := get_regs regs in
         olet o := get_ov o in olet kw := get_kw kw in
-        Some (answer e o None (static_url e rs regs path o kw) (static_path e rs regs path o kw))
+        let '(els, ext) := spec_static e regs path in
+        Some (answer_x e o els ext (static_url_x e rs regs path o kw) (static_path_x e rs regs path o kw))
     | VL [VI 0%Z; VI 3%Z; e; rs; rname; matched; md; gt; els; o; kw; w] =>
         olet e := get_env e in olet rs := get_routes rs in
         olet rname := get_opt get_text rname in olet matched := get_opt get_text matched in
